@@ -26,9 +26,9 @@ FAMS_Q = [(['S', 3], 1.0), (['S', 4], 1.0), (['S', 5], 1.0), (['QR', {'p': 23}],
           (['EC', 'Ed448', 'projective'], 0.3), (['EC', 'Ed448', 'extended'], 0.4), (['EC', 'secp256k1', 'projective'], 0.4),
           (['EC', 'BN256', 'projective'], 0.3), (['EC', 'BN256_twist', 'projective'], 0.2), (['HC', {'curvename': 'kummer1271'}], 1.0),
           (['Cl', {'Delta': -23}], 0.5), (['Cl', {'Delta': -71}], 0.2), (['Cl', {'l': 16}], 0.08)]
-FAMS_T = [(s_, min(1.0, 1.3 * w)) for s_, w in FAMS_Q] + \
+FAMS_T = [(s_, w) for s_, w in FAMS_Q] + \
     [(['S', 2], 1.0), (['S', 7], 0.5), (['QR', {'p': 47}], 1.0), (['QR', {'l': 256}], 0.2), (['SG', {'l': 64, 'n': 32}], 0.3),
-     (['EC', 'Ed25519', 'projective'], 0.3), (['EC', 'Ed448', 'affine'], 0.3), (['Cl', {'Delta': -47}], 0.2), (['Cl', {'l': 28}], 0.03)]
+     (['EC', 'Ed25519', 'projective'], 0.3), (['EC', 'Ed448', 'affine'], 0.3), (['Cl', {'Delta': -47}], 0.2), (['Cl', {'l': 28}], 0.02)]
 NP_FAMS = [(['HC', {'l': 5, 'genus': 3}], 0.3), (['HC', {'l': 8, 'genus': 2}], 0.5), (['HC', {'l': 6, 'genus': 1}], 0.5)]
 
 
@@ -72,7 +72,7 @@ def run(ctx):
     try:
         fams = FAMS_Q if ctx.quick else FAMS_T
         worlds = [(1, 0, False, 0.3), (3, 1, False, 1.0), (4, 1, True, 0.15)] if ctx.quick else \
-            [(1, 0, False, 0.5), (2, 0, False, 0.2), (3, 1, False, 1.0), (3, 1, True, 0.4), (4, 1, False, 0.25), (5, 2, False, 0.2), (5, 2, True, 0.1)]
+            [(1, 0, False, 0.5), (2, 0, False, 0.2), (3, 1, False, 1.0), (3, 1, True, 0.4), (4, 1, False, 0.2), (5, 2, False, 0.12)]
         evs = run_worlds(ctx, fams, worlds, rnd, ctx.quick)
         validate28(ctx, wd, evs, 'worlds')
         # hyperelliptic curves in Mumford representation: secure polynomials need NumPy
